@@ -4,13 +4,13 @@ namespace Mxl.C12
 
 /-- substitution lemma (positional): evaluating a library body after `fn_to_sympy` has put
     the model expressions `es` in = evaluating the body at the values of `es` -/
-theorem C12_subst_args (ρ : Name → Rat) (xs : List Rat) (es : List SExpr) (e : SExpr) :
-    evalS ρ xs (substArgs es e) = evalS ρ (es.map (evalS ρ xs)) e :=
-  evalS_substArgs ρ xs es e
+theorem C12_subst_args (ρ : Name → Rat) (es : List SExpr) (b : BExpr) :
+    evalS ρ (substArgs es b) = evalB (es.map (evalS ρ)) b :=
+  evalS_substArgs ρ es b
 
 /-- substitution lemma (symbols): `evalS (subst σ e) env = evalS e (env ∘ σ)` -/
-theorem C12_subst_syms (ρ : Name → Rat) (xs : List Rat) (σ : Name → SExpr) (e : SExpr) :
-    evalS ρ xs (substSym σ e) = evalS (fun n => evalS ρ xs (σ n)) xs e :=
-  evalS_substSym ρ xs σ e
+theorem C12_subst_syms (ρ : Name → Rat) (σ : Name → SExpr) (e : SExpr) :
+    evalS ρ (substSym σ e) = evalS (fun n => evalS ρ (σ n)) e :=
+  evalS_substSym ρ σ e
 
 end Mxl.C12
